@@ -30,7 +30,13 @@ class Profile:
         self.lat_max = d.get('lat_max', 200)
 
 
+class EventStorm(Exception):
+    """The run exceeded its total event budget (traffic that feeds on itself)."""
+
+
 class Kernel:
+    EVENT_BUDGET = 1_500_000
+
     def __init__(self, seed: int, profile=None, trace_keep=0):
         self.streams = Streams(seed)
         self.heap = EventHeap()
@@ -43,6 +49,8 @@ class Kernel:
         self.steps = 0
         self.partitions = []      # list of frozensets of hosts that cannot talk across
         self.error = None
+        self.total_events = 0
+        self.guard = None         # optional predicate checked after every event: true ends any run() at once
 
     @property
     def now(self):
@@ -77,6 +85,10 @@ class Kernel:
                 break
             at, seq, kind, payload = self.heap.pop()
             n += 1
+            self.total_events += 1
+            if self.total_events > self.EVENT_BUDGET:
+                raise EventStorm('more than %d events in one run (%d still queued at virtual ms %d)' % (
+                    self.EVENT_BUDGET, len(self.heap), self.now))
             if kind == 'wake':
                 task = payload
                 task.wakes.discard(at)
@@ -92,6 +104,8 @@ class Kernel:
                 fn, args = payload
                 fn(*args)
             if stop is not None and stop():
+                break
+            if self.guard is not None and self.guard():
                 break
         if not len(self.heap) or self.heap.q[0][0] > until_ms:
             self.heap.now = max(self.heap.now, until_ms) if until_ms < 1 << 60 else self.heap.now
